@@ -51,6 +51,7 @@ vars_key = z3.Function("vars_key", Val, IntS, Val)
 vars_val = z3.Function("vars_val", Val, IntS, Val)
 attr_of = z3.Function("attr_of", Val, Val, Val)
 private = z3.Function("startswith_underscore", Val, BoolS)
+hint_cv = z3.Function("hint_is_a_ClassVar", Cls, IntS, BoolS)      # the i-th annotation of the class is a ClassVar (not an instance field)
 
 
 def class_axioms():
@@ -293,6 +294,26 @@ def make_interp():
         getattr_model(I, p, a, k))
     I.builtin_models[B.vars] = lambda I, path, a, k: VarsDict(to_val(a[0]))
 
+    # ---- the two name lists of _make_fields_iterator that are not single-source comprehensions, taken by contract for exactly these
+    # expressions: the annotated names that are public and not ClassVar (inspection.isclassvartype per hint), and the public slot
+    # names declared along the hierarchy, base first (slot_n / slot_name now stand for that whole list; `_slotnames` reads one
+    # class's own __slots__, a single string being one name)
+    def hints_contract(I, env, path):
+        c = I.cls_term(env.lookup("tp"))
+        I.assumed_used.add("get_type_hints(cls): annotated names in definition order; isclassvartype(hint) (C17) tells ClassVar annotations")
+        return FilteredSeq(("hints", None), hint_n(c), lambda i, c=c: z3.And(z3.Not(private(hint_name(c, to_int(i)))), z3.Not(hint_cv(c, to_int(i)))),
+                           lambda i, c=c: SV(hint_name(c, to_int(i))))
+
+    def slots_contract(I, env, path):
+        c = I.cls_term(env.lookup("tp"))
+        I.assumed_used.add("[s for c in reversed(tp.__mro__) for s in _slotnames(c)]: the slot names declared along the hierarchy, base first")
+        return FilteredSeq(("slots", None), slot_n(c), lambda i, c=c: z3.Not(private(slot_name(c, to_int(i)))),
+                           lambda i, c=c: SV(slot_name(c, to_int(i))))
+    I.expr_contracts = {
+        "[k for k, hint in attribs.items() if not k.startswith('_') and (not inspection.isclassvartype(hint))]": hints_contract,
+        "[s for c in reversed(tp.__mro__) for s in _slotnames(c) if not s.startswith('_')]": slots_contract,
+    }
+
     # ---- filtered comprehensions over abstract sources: FilteredSeq
     orig_comp = I._comp
 
@@ -453,7 +474,7 @@ def structured_spec(w):
     pub = lambda name: z3.Not(private(name))
     dc = ("filtered", ("dc", None), dc_n(c), lambda i: pub(dc_name(c, i)), lambda i: dc_name(c, i),
           lambda i: attr_of(x, dc_name(c, i)))
-    hints = ("filtered", ("hints", None), hint_n(c), lambda i: pub(hint_name(c, i)), lambda i: hint_name(c, i),
+    hints = ("filtered", ("hints", None), hint_n(c), lambda i: z3.And(pub(hint_name(c, i)), z3.Not(hint_cv(c, i))), lambda i: hint_name(c, i),
              lambda i: attr_of(x, hint_name(c, i)))
     slots = ("filtered", ("slots", None), slot_n(c), lambda i: pub(slot_name(c, i)), lambda i: slot_name(c, i),
              lambda i: attr_of(x, slot_name(c, i)))
@@ -473,14 +494,21 @@ def _src(kind, x):
             "slots": (slot_n(c), lambda i: slot_name(c, i)), "vars": (vars_n(x), lambda i: vars_key(x, i))}[kind]
 
 
+def is_field(kind, x, i):
+    """the i-th name of the source is a public instance field (annotated names: also not a ClassVar)"""
+    n, name = _src(kind, x)
+    ok = z3.Not(private(name(i)))
+    return z3.And(ok, z3.Not(hint_cv(cls_of(x), i))) if kind == "hints" else ok
+
+
 def any_pub_axioms(x):
     ax = []
     for k in any_pub:
         n, name = _src(k, x)
-        ax.append(Q([IntS], lambda i, n=n, name=name, k=k: z3.Implies(z3.And(i >= 0, i < n, z3.Not(private(name(i)))),
-                                                                     any_pub[k](x)), name=f"any-public-{k}-intro"))
+        ax.append(Q([IntS], lambda i, n=n, k=k: z3.Implies(z3.And(i >= 0, i < n, is_field(k, x, i)), any_pub[k](x)),
+                    name=f"any-public-{k}-intro"))
         w_ = wit[k](x)
-        ax.append(z3.Implies(any_pub[k](x), z3.And(w_ >= 0, w_ < n, z3.Not(private(name(w_))))))
+        ax.append(z3.Implies(any_pub[k](x), z3.And(w_ >= 0, w_ < n, is_field(k, x, w_))))
         ax.append(n >= 0)
     return ax
 
@@ -603,7 +631,7 @@ def _structured(chk, func, names, pid, hy, fs, w, values_only, i):
     else:
         pt = pair_terms(item)
         elt_ok = z3.BoolVal(False) if pt is None else z3.And(pt[0] == name(i), pt[1] == val(i))
-    keep_ok = fs.keep(SInt(i)) == z3.Not(private(name(i)))
+    keep_ok = fs.keep(SInt(i)) == is_field(kind, x, i)
     n_ok = _len_term(fs.n) == n
     # the source the code chose is the one the statement prescribes
     dcx, base = P["is_dataclass"](c), None
